@@ -13,12 +13,16 @@ VARIABLE l
 TraceInit == l = 1 /\ TLCSet(1, 1)
 
 NoDup(s) == \A i, j \in 1..Len(s) : i # j => s[i] # s[j]
+\* two nodes (of different datacenters) may own the same token: the walk "clockwise from the token" is then not defined between
+\* them, and the ring-ordered view is only required to describe the same nodes (what C04 states)
+HasDupPos(ring) == \E i, j \in 1..Len(ring) : i # j /\ ring[i][1] = ring[j][1]
 
 QueryOK(r, x) ==
   S1(InDc(r.ring, r.attr, x.q, r.strat, x.dc), LAMBDA set :
     /\ x.len = Cardinality(set)                              \* size
     /\ SeqSet(x.iter) = set /\ NoDup(x.iter)                 \* iteration
-    /\ x.ordered = Ordered(r.ring, x.q, set)                 \* ring-ordered view
+    /\ SeqSet(x.ordered) = set /\ NoDup(x.ordered)           \* ring-ordered view: the same nodes,
+    /\ (~HasDupPos(r.ring) => x.ordered = Ordered(r.ring, x.q, set))      \* clockwise from the token
     /\ SeqSet(x.yes) = set                                   \* random choice can produce exactly the members
     /\ SeqSet(x.no) \cap set = {}
     /\ SeqSet(x.chosen) \subseteq set /\ (set # {} => x.chosen # << >>)
